@@ -181,6 +181,9 @@ def run(seed=0, rounds=400):
     except KeyError:
         trace.append('propagated')
     check('contextmanager-runs-the-body-at-the-yield-and-raises-its-exception-there', trace == ['enter', 'body', 'exit', 'propagated'], trace)
+    from native import axioms_c01  # n-d denotations of the evaluable node constructors (contracts/c01_nd.py)
+    for _ in range(max(1, rounds // 40)):
+        axioms_c01.run(check, rng, 0)
     from native import axioms_c14  # externals of the C14 extension contracts (mask rank function, math.fsum/sqrt, float ** 2)
     for _ in range(rounds):
         axioms_c14.run(check, rng, int(rng.randint(0, 7)))
